@@ -1,6 +1,7 @@
 import RsddModel.Driver.UpStream
 import RsddModel.Driver.WmcStream
 import RsddModel.Model.TopDown
+import RsddModel.Model.UpSolver
 /-!
 # Driver: the `td` stream (C06)
 
@@ -14,24 +15,9 @@ exactly the implementation's diagram (standard store).
 namespace Driver
 open Spec
 
-/-- the mirrored `SATSolver` behind the abstract solver interface of the compiler model -/
-def UpSolver : TopDown.Solver where
-  σ := UnitProp.Solver
-  κ := Nat
-  keyEq := inferInstance
-  new := fun cnf _ => match UnitProp.Solver.new cnf with
-    | some (some s) => some s
-    | _ => none
-  decide := fun s l => match s.decide l with
-    | .ok s' .sat => (.sat, s')
-    | .ok s' .unsat => (.unsat, s')
-    | .ok s' .unknown => (.unknown, s')
-    | .error => (.unsat, s)
-  pop := fun s => s.pop
-  isSat := fun s => s.isSat.getD false
-  isSet := fun s v => (s.isSet v).getD false
-  curHash := fun s => s.curHash.getD 0
-  difference := fun s => (s.differenceIter).getD []
+/-- the mirrored `SATSolver` behind the abstract solver interface of the compiler model
+(`Model/UpSolver.lean`; `Props/C06Real.lean` proves the compiler correct on it) -/
+abbrev UpSolver : TopDown.Solver := TopDown.UpSolver
 
 def freeB : Bdd.Ptr → Bool
   | .tru | .fls => true
